@@ -834,6 +834,28 @@ func (cs *consensus) enterPrevoteWait() {
 	}
 }
 
+// writeLockWAL records the polka and the locked block parts so that
+// applyLockWAL restores the lock with the current round.
+func (cs *consensus) writeLockWAL(prevotes *voteSet) {
+	msg := newVoteListMessage()
+	msg.VoteList = prevotes.voteList()
+	if err := cs.lockWAL.WriteMessage(msg); err != nil {
+		cs.log.Errorf("fail to write WAL: enterPrecommit: %+v\n", err)
+	}
+	for i := 0; i < cs.lockedBlockParts.Parts(); i++ {
+		msg := newBlockPartMessage()
+		msg.Height = cs.height
+		msg.Index = uint16(i)
+		msg.BlockPart = cs.lockedBlockParts.GetPart(i).Bytes()
+		if err := cs.lockWAL.WriteMessage(msg); err != nil {
+			cs.log.Errorf("fail to write WAL: enterPrecommit: %+v\n", err)
+		}
+	}
+	if err := cs.lockWAL.Sync(); err != nil {
+		cs.log.Errorf("fail to sync WAL: enterPrecommit: %+v\n", err)
+	}
+}
+
 func (cs *consensus) enterPrecommit() {
 	cs.resetForNewStep(stepPrecommit)
 
@@ -851,28 +873,14 @@ func (cs *consensus) enterPrecommit() {
 	} else if cs.lockedBlockParts.ID().Equal(partSetID) {
 		cs.log.Traceln("enterPrecommit: update lock round")
 		cs.lockedRound = cs.round
+		// the new lock round must survive a restart as well
+		cs.writeLockWAL(prevotes)
 		cs.sendVote(VoteTypePrecommit, &cs.lockedBlockParts)
 	} else if cs.currentBlockParts.ID().Equal(partSetID) && cs.currentBlockParts.HasBlockData() {
 		cs.log.Traceln("enterPrecommit: update lock")
 		cs.lockedRound = cs.round
 		cs.lockedBlockParts.Assign(&cs.currentBlockParts)
-		msg := newVoteListMessage()
-		msg.VoteList = prevotes.voteList()
-		if err := cs.lockWAL.WriteMessage(msg); err != nil {
-			cs.log.Errorf("fail to write WAL: enterPrecommit: %+v\n", err)
-		}
-		for i := 0; i < cs.lockedBlockParts.Parts(); i++ {
-			msg := newBlockPartMessage()
-			msg.Height = cs.height
-			msg.Index = uint16(i)
-			msg.BlockPart = cs.lockedBlockParts.GetPart(i).Bytes()
-			if err := cs.lockWAL.WriteMessage(msg); err != nil {
-				cs.log.Errorf("fail to write WAL: enterPrecommit: %+v\n", err)
-			}
-		}
-		if err := cs.lockWAL.Sync(); err != nil {
-			cs.log.Errorf("fail to sync WAL: enterPrecommit: %+v\n", err)
-		}
+		cs.writeLockWAL(prevotes)
 		cs.sendVote(VoteTypePrecommit, &cs.lockedBlockParts)
 	} else if cs.currentBlockParts.ID().Equal(partSetID) && cs.currentBlockParts.IsComplete() {
 		// polka for a block that we cannot create
